@@ -89,9 +89,9 @@ def start_of(p):
     return var, idx
 
 
-def run_config(ctx, rep, cfg, F):
+def run_config(ctx, rep, cfg, F, funcs=None, floor=800):
     n = 0
-    for short, (kind, rule) in FUNCS.items():
+    for short, (kind, rule) in (funcs or FUNCS).items():
         if short not in F.short:
             rep.bad(rule, short, "missing", "%s not found" % short, kind="unrecognised", config=cfg)
             continue
@@ -178,7 +178,7 @@ def run_config(ctx, rep, cfg, F):
             else:
                 rep.ok(rule, short, "hit:%s:%s" % (sr, want[0]),
                        sample={"start": start, "relation": sr, "chain": W.chain, "answer": list(loc), "inputs": ins} if sr == "SUB" else None)
-    rep.floor("view search paths checked (%s)" % cfg, n, 800)
+    rep.floor("view search paths checked (%s)" % cfg, n, floor)
 
 
 def finalize(ctx, rep):
